@@ -17,6 +17,11 @@ def check(run):
                           'broken_documents_by_class': s['n15'], 'string_alphabet': S.FRAG, 'names': S.NAMES15})
         for c in s['crashes'][:3]:
             run.tie_breaks.append('harness produced no records: %s' % c['line'])
+        H = s['hist']
+        run.extra['normalize_oracles'] = {'NZ_calls': H.get('normalize:calls', 0),
+                                          'decided_by_extracted_dom_normalize': H.get('normalize:decided-by-extracted-dom_normalize', 0),
+                                          'python_oracle_agrees': H.get('normalize:oracles-agree', 0),
+                                          'python_oracle_disagrees': H.get('normalize:oracles-disagree', 0)}
         hits = {}
         for f in s['c15']:
             fid = S.classify15(f)
